@@ -1080,8 +1080,7 @@ class FusedBlockwiseLayer:
                 holed[ck] = FusedBlockwiseLayer._node_fingerprint(task, {})
         return holed, cout
 
-    @staticmethod
-    def _probe_blocks(numblocks):
+    def _probe_blocks(self, numblocks):
         zero = tuple(0 for _ in numblocks)
         probes = {zero, tuple(n - 1 for n in numblocks)}
         for i, n in enumerate(numblocks):
@@ -1091,4 +1090,18 @@ class FusedBlockwiseLayer:
                     b[i] = v
                     probes.add(tuple(b))
         probes.add(tuple(min(i, n - 1) for i, n in enumerate(numblocks)))
+        # A block-dependent literal (the per-block shape of a fused creation
+        # function) changes wherever a chunk size does: also probe the first
+        # block of every distinct chunk size along each axis, so an odd interior
+        # chunk cannot hide between the corner and middle probes.
+        chunks = self.expr.chunks
+        if len(chunks) == len(numblocks):
+            for i, dim in enumerate(chunks):
+                seen = set()
+                for j, c in enumerate(dim):
+                    if c not in seen and j < numblocks[i]:
+                        seen.add(c)
+                        b = list(zero)
+                        b[i] = j
+                        probes.add(tuple(b))
         return probes
